@@ -1,4 +1,8 @@
 import Bmc.Proofs.C14
+import Bmc.Proofs.GenOrch.TranslatedOk
+import Bmc.Proofs.GenOrch.WalkSDRs
+import Bmc.Proofs.GenOrch.RetrieveSDRRepository
+import Bmc.Proofs.EndToEnd.WalkC14
 #print axioms Bmc.Proofs.C14.walk_complete
 #print axioms Bmc.Proofs.C14.retrieve_complete
 #print axioms Bmc.Proofs.C14.result_exact
@@ -8,3 +12,8 @@ import Bmc.Proofs.C14
 #print axioms Bmc.Proofs.C14.modified_discarded_repeat
 #print axioms Bmc.Proofs.C14.snapshot
 #print axioms Bmc.Proofs.C14.snapshot_run
+#print axioms Bmc.Proofs.GenOrch.translated_ok
+#print axioms Bmc.Proofs.GenOrch.gaveUp_none
+#print axioms Bmc.Proofs.GenOrch.walkSDRs_gen_eq
+#print axioms Bmc.Proofs.GenOrch.RetrieveSDRRepository_gen_eq
+#print axioms Bmc.Proofs.EndToEnd.generated_walkSDRs_complete
